@@ -2,9 +2,10 @@
    Only ExtrOcamlBasic is used: N, positive and nat stay the extracted datatypes. *)
 From Coq Require Import Extraction ExtrOcamlBasic.
 From Snaps Require Import Base.Bytes Base.Lines Base.Dec Base.Assoc.
-From Snaps Require Import Model.Frame Model.PathModel Model.Mode Model.Api Model.Json.
+From Snaps Require Import Model.Frame Model.PathModel Model.Mode Model.Api Model.Json Model.Difflib Model.Report.
 
 Extraction Language OCaml.
 Extraction "model.ml" init_state step run get_prev add_entry update_entry escape unescape
   clean join dirname basename ext snapshot_path header
-  valid snapshot_json set_path_text.
+  valid snapshot_json set_path_text
+  split_newlines get_opcodes grouped_opcodes pretty_diff_nocolor.
